@@ -86,6 +86,8 @@ pub struct Exec {
     pub sess: ClientSession,
     pub outdec: OutDec,
     pub peer: PeerEnc,
+    pub record: Vec<PacketRec>,
+    pub tag: Tag,
 }
 
 impl Exec {
@@ -93,7 +95,7 @@ impl Exec {
         let mut cfg = ClientSessionConfig::new();
         cfg.chunk_size = chunk_size.clamp(1, 0x7FFF_FFFF);
         let (sess, init) = ClientSession::new(cfg).map_err(|e| format!("ClientSession::new failed: {:?}", e))?;
-        let mut e = Exec { sess, outdec: OutDec::new(), peer: PeerEnc::new() };
+        let mut e = Exec { sess, outdec: OutDec::new(), peer: PeerEnc::new(), record: Vec::new(), tag: Tag { call: usize::MAX, ..Tag::default() } };
         let mut o = OpObs::default();
         e.absorb(init, &mut o)?;
         Ok(e)
@@ -103,6 +105,7 @@ impl Exec {
         let s = split_client(results);
         for (b, d) in s.packets {
             o.raw_out_bytes += b.len();
+            self.record.push(PacketRec { bytes: b.clone(), droppable: d, asked: self.tag.asked, call: self.tag.call, expect_msid: self.tag.expect_msid, age: self.tag.age });
             o.out.extend(self.outdec.packet(&b, d)?);
         }
         o.events.extend(s.events);
@@ -184,6 +187,7 @@ impl Exec {
             Concrete::SendPing => match self.sess.send_ping_request() {
                 Ok((p, _)) => {
                     o.raw_out_bytes += p.bytes.len();
+                    self.record.push(PacketRec { bytes: p.bytes.clone(), droppable: p.can_be_dropped, asked: None, call: self.tag.call, expect_msid: None, age: self.tag.age });
                     o.out.extend(self.outdec.packet(&p.bytes, p.can_be_dropped)?)
                 }
                 Err(e) => o.err = Some(format!("{:?}", e)),
@@ -300,10 +304,25 @@ fn tid_value(model: &Model, r: &TidRef) -> (f64, &'static str) {
 }
 
 pub fn eval(case: &Case) -> Verdict {
+    eval_with(case, &Clock::default(), &mut Vec::new())
+}
+
+/// Runs and judges a history; `clock` ages the session, `sink` receives every packet returned.
+pub fn eval_with(case: &Case, clock: &Clock, sink: &mut Vec<PacketRec>) -> Verdict {
     let mut ex = match Exec::new(case.chunk_size) {
         Ok(e) => e,
         Err(e) => return Verdict::Fail(e),
     };
+    let mut age = clock.age0;
+    if age > 0 {
+        ex.sess.verif_shift_clock(age);
+    }
+    let v = eval_inner(case, clock, &mut ex, &mut age);
+    sink.append(&mut ex.record);
+    v
+}
+
+fn eval_inner(case: &Case, clock: &Clock, ex: &mut Exec, age: &mut u64) -> Verdict {
     let mut model = Model { st: St::Disconnected, outstanding: BTreeMap::new(), answered: Vec::new(), seen_tids: BTreeSet::new(), active: None, unspecified: false, accepted_steps: 0 };
     let mut log: Vec<Concrete> = Vec::new();
     let mut ended_by_error = false;
@@ -411,6 +430,23 @@ pub fn eval(case: &Case) -> Verdict {
             COp::WindowAck { v } => Concrete::Peer { rm: RM::WindowAck((*v).max(1)), msid: 0, ts: peer_ts, cut: *cut, chunk: None },
             COp::PeerChunkSize(n) => Concrete::Peer { rm: RM::SetChunkSize(0), msid: 0, ts: peer_ts, cut: *cut, chunk: Some((*n).clamp(1, 0x7FFF_FFFF)) },
             COp::UnknownCommand { k } => Concrete::Peer { rm: command(["onBWDone", "onFCPublish", "close"][*k as usize % 3], 0.0, V::Null, vec![num(8192.0)]), msid: 0, ts: peer_ts, cut: *cut, chunk: None },
+        };
+        let shift = clock.shift_before(idx, case.ops.len());
+        if shift > 0 {
+            ex.sess.verif_shift_clock(shift);
+            *age += shift;
+        }
+        ex.tag = Tag {
+            call: idx,
+            asked: match &concrete {
+                Concrete::PublishAudio { drop, .. } | Concrete::PublishVideo { drop, .. } => Some(*drop),
+                _ => None,
+            },
+            expect_msid: match &concrete {
+                Concrete::PublishAudio { .. } | Concrete::PublishVideo { .. } | Concrete::PublishMetadata(_) => model.active,
+                _ => None,
+            },
+            age: *age,
         };
         let o = match ex.run(&concrete) {
             Ok(o) => o,
